@@ -155,13 +155,20 @@ def coq_make(targets=None, timeout=3000):
     return rc == 0, out
 
 
+# the files the executable (extracted) models consist of: definitions only, no proofs
+MODEL_FILES = ["PP/Range.v", "PP/Origin.v", "PP/Bytes.v", "PP/Eval.v", "PP/SkipCheck.v", "Tree/Tree.v", "Tree/Iter.v", "Nom/Peg.v"]
+MODEL_TARGETS = [f + "o" for f in MODEL_FILES]
+
+
 def build_model():
     """Extract the executable models and build the OCaml driver."""
     ob = os.path.join(BUILD, "ocaml")
     os.makedirs(ob, exist_ok=True)
-    ok, out = coq_make()
+    # only what the extraction needs: a proof that no longer checks (or a file under construction) elsewhere in the
+    # development must not take the executable model down with it
+    ok, out = coq_make(MODEL_TARGETS)
     if not ok:
-        raise RuntimeError("coq build failed:\n" + out[-6000:])
+        raise RuntimeError("coq build of the executable model failed:\n" + out[-6000:])
     q = []
     for d in ["Base", "PP", "Nom", "Tree", "API", "Props", "Gen"]:
         q += ["-Q", os.path.join(COQ, d), "SV"]
